@@ -905,6 +905,50 @@ def special_cases(rep, drv, pt, abi, world, b, stats, thorough):
                 rep.violation(f"{cls.__name__}.set(-1) was accepted", {"kind": "special", "case": "neg"}, key="special-negative")
             except pt.TealInputError:
                 pass
+    # an integer given as ANOTHER abi integer variable: either refused when the set is built, or the value is carried over when it
+    # fits the target width and the program fails when it does not -- never a truncated encoding
+    UI = [(abi.Byte, 8), (abi.Uint8, 8), (abi.Uint16, 16), (abi.Uint32, 32), (abi.Uint64, 64)]
+    xw = {"refused": 0, "carried": 0, "program_fails": 0}
+    n = 0
+    for tcls, tb in UI:
+        for scls, sb in UI:
+            for v in sorted({0, 1, 255, 256, 65535, 65536, 70000, (1 << 32) - 1, 1 << 32, (1 << 64) - 1}):
+                if v >= 1 << sb:
+                    continue
+                for wrap in ("bare", "tuple"):
+                    n += 1
+                    def build():
+                        src, tgt = scls(), tcls()
+                        stmts = [src.set(pt.Int(v)), tgt.set(src)]
+                        if wrap == "tuple":
+                            tup = abi.TupleTypeSpec(tgt.type_spec(), abi.BoolTypeSpec()).new_instance()
+                            flag = abi.Bool()
+                            stmts += [flag.set(True), tup.set(tgt, flag)]
+                            return pt.Seq(*stmts, pt.Log(tup.encode()), pt.Approve())
+                        return pt.Seq(*stmts, pt.Log(tgt.encode()), pt.Approve())
+                    try:
+                        with quiet():
+                            teal = pt.compileTeal(build(), pt.Mode.Application, version=8)
+                    except (pt.TealInputError, pt.TealTypeError):
+                        xw["refused"] += 1
+                        continue
+                    res = exec_teal(drv, teal, [], 8, "xw")
+                    body = {"kind": "special", "case": "cross-width", "source": scls.__name__, "target": tcls.__name__, "value": v,
+                            "wrap": wrap, "teal": teal}
+                    if res[0] == "tool":
+                        raise ToolFailure("cross-width program: " + res[1])
+                    want = v.to_bytes(tb // 8, "big") + (b"\x80" if wrap == "tuple" else b"") if v < 1 << tb else None
+                    if want is None:
+                        if res[0] == "ok":
+                            rep.violation(f"{tcls.__name__}.set({scls.__name__} holding {v}) is accepted and the program logs {res[1].hex()}: "
+                                          f"the value does not fit {tb} bits", body)
+                        else:
+                            xw["program_fails"] += 1
+                    elif res != ("ok", want):
+                        rep.violation(f"{tcls.__name__}.set({scls.__name__} holding {v}) is accepted; expected encoding {want.hex()}, got {res}", body)
+                    else:
+                        xw["carried"] += 1
+    out["integer_given_as_another_abi_integer"] = dict(xw, cases=n)
     stats["special"] = out
 
 
